@@ -17,6 +17,17 @@ CHECKS = {
              "search by named guards and demonstrated by stored replays.",
         tech=TECH % ("", "oracle = byte-array reference model, op by op and after restart"),
     ),
+    "C03": dict(
+        profile="sdarray", cat="exploration", ref="DESIGN.md section 4 C03",
+        text="Seeded search over SD histories: datasets of rank 0..4 (spot ranks to 32), 9 number types x 3 flavours, "
+             "unlimited first dimension with skipped records, user/default fill values, fill mode on/off, block "
+             "sizes; hyperslab writes and reads with start/stride/count inside, at the edge of and beyond the extent; "
+             "SDend/SDstart restarts. Oracle: n-d array model (written / fill / unspecified cells), full read-back "
+             "after every restart. 10 000 (quick) / 200 000 (thorough) histories.",
+        note="Trusts the array model and the default fill constants of mfhdf.h; cells left unspecified by fill mode "
+             "off or by a refused write are not compared; one known finding kept out by a guard.",
+        tech=TECH % ("", "oracle = n-dimensional array reference model"),
+    ),
     "C12": dict(
         profile="ddmap", cat="exploration", ref="DESIGN.md section 4 C12",
         text="Seeded search over create/delete/duplicate/reuse/search/count/new-ref histories (descriptor-block sizes "
